@@ -50,7 +50,16 @@ variable {α : Type}
 open Base
 
 namespace Bnd
-theorem J_init (t0 : Nat) : J (Bnd.init (α := α) t0).b := J_subscribe _ _ (J_subscribe _ _ (J_open _ (J_empty t0)))
+theorem J_init (t0 : Nat) (bsync : Option (Notif Unit) := none) : J (Bnd.init (α := α) t0 bsync).b := by
+  have h0 : J ((({ now := t0 } : Base α).newWin.1.outerNext ({ now := t0 } : Base α).newWin.2).subscribe 0) :=
+    J_subscribe _ _ (J_open _ (J_empty t0))
+  cases bsync with
+  | none => simp only [Bnd.init]; exact J_subscribe _ _ h0
+  | some n =>
+    cases n with
+    | next u => simp only [Bnd.init, Bnd.onBoundary]; exact J_open _ (J_winEnd _ _ _ h0)
+    | error e => simp only [Bnd.init, Bnd.onEnd]; exact J_outerEnd _ _ (J_winEnd _ _ _ h0)
+    | completed => simp only [Bnd.init, Bnd.onEnd]; exact J_outerEnd _ _ (J_winEnd _ _ _ h0)
 theorem J_step (s : Bnd α) (t : Nat) (ev : Ev α) (h : J s.b) : J (Bnd.mach.step s t ev).b := by
   have h' : J ({ s with b := { s.b with now := t } } : Bnd α).b := J_now _ _ h
   simp only [mach]
@@ -71,21 +80,27 @@ end Bnd
 
 namespace Whn
 theorem J_onEnd (s : Whn α) (e) (h : J s.b) : J (onEnd s e).b := J_outerEnd _ _ (J_winEnd _ _ _ h)
-theorem J_createClosing (r : Option Nat) (pool : Nat) (s : Whn α) (h : J s.b) : J (createClosing r pool s).b := by
-  unfold createClosing; simp only []; split
-  · exact J_outerEnd _ _ (J_winEnd _ _ _ h)
-  · have key : ∀ b1 : Base α, J b1 →
-        J (if s.calls < pool then (if b1.rcDisposed then (b1.subscribe (s.calls + 1)).unsub (s.calls + 1) else b1.subscribe (s.calls + 1)) else b1) := by
-      intro b1 h1
+theorem J_createClosingF (r : Option Nat) (pool : Nat) (fuel : Nat) (s : Whn α) (h : J s.b) : J (createClosingF r pool fuel s).b := by
+  induction fuel generalizing s with
+  | zero => exact h
+  | succ fuel ih =>
+    simp only [createClosingF]
+    split
+    · exact J_outerEnd _ _ (J_winEnd _ _ _ h)
+    · have h1 : J (if s.calls ≥ 1 then s.b.unsub s.calls else s.b) := by split; exact J_unsub _ _ h; exact h
+      generalize (if s.calls ≥ 1 then s.b.unsub s.calls else s.b) = b1 at h1 ⊢
       split
-      · split
-        · exact J_unsub _ _ (J_subscribe _ _ h1)
-        · exact J_subscribe _ _ h1
-      · exact h1
-    by_cases hc : s.calls ≥ 1
-    · simp only [hc, if_true]; exact key _ (J_unsub _ _ h)
-    · simp only [hc, if_false]; exact key _ h
-theorem J_init (r : Option Nat) (pool t0 : Nat) : J (Whn.init (α := α) r pool t0).b :=
+      · exact ih _ (J_open _ (J_winEnd _ _ _ h1))
+      · exact J_outerEnd _ _ (J_winEnd _ _ _ h1)
+      · simp only []
+        split
+        · split
+          · exact J_unsub _ _ (J_subscribe _ _ h1)
+          · exact J_subscribe _ _ h1
+        · exact h1
+theorem J_createClosing (r : Option Nat) (pool : Nat) (s : Whn α) (h : J s.b) : J (createClosing r pool s).b :=
+  J_createClosingF r pool _ s h
+theorem J_init (r : Option Nat) (pool t0 : Nat) (sync : List (Option (Option Err)) := []) : J (Whn.init (α := α) r pool t0 sync).b :=
   J_createClosing _ _ _ (J_subscribe _ _ (J_open _ (J_empty t0)))
 theorem J_onClose (r : Option Nat) (pool : Nat) (s : Whn α) (h : J s.b) : J (onClose r pool s).b :=
   J_createClosing _ _ _ (J_open _ (J_winEnd _ _ _ h))
@@ -111,7 +126,7 @@ theorem J_step (r : Option Nat) (pool : Nat) (s : Whn α) (t : Nat) (ev : Ev α)
 end Whn
 
 namespace Tgl
-theorem J_init (t0 : Nat) : J (Tgl.init (α := α) t0).b := J_subscribe _ _ (J_subscribe _ _ (J_empty t0))
+theorem J_init (t0 : Nat) (sync : List (Option (Option Err)) := []) : J (Tgl.init (α := α) t0 sync).b := J_subscribe _ _ (J_subscribe _ _ (J_empty t0))
 theorem J_errAll (s : Tgl α) (e) (h : J s.b) : J (errAll s e).b :=
   J_outerEnd _ _ (J_foldl _ (fun b p hb => J_winEnd b p.2 (some e) hb) _ _ h)
 theorem J_expire (s : Tgl α) (i) (h : J s.b) : J (expire s i).b := by
@@ -124,10 +139,13 @@ theorem J_onOpen (r : Option Nat) (pool : Nat) (s : Tgl α) (h : J s.b) : J (onO
   split
   · exact J_errAll _ _ h1
   · split
+    · exact J_expire _ _ h1
+    · exact J_errAll _ _ h1
     · split
-      · exact J_unsub _ _ (J_subscribe _ _ h1)
-      · exact J_subscribe _ _ h1
-    · exact h1
+      · split
+        · exact J_unsub _ _ (J_subscribe _ _ h1)
+        · exact J_subscribe _ _ h1
+      · exact h1
 theorem J_step (r : Option Nat) (pool : Nat) (s : Tgl α) (t : Nat) (ev : Ev α) (h : J s.b) :
     J ((Tgl.mach r pool).step s t ev).b := by
   have h' : J ({ s with b := { s.b with now := t } } : Tgl α).b := J_now _ _ h
